@@ -10,7 +10,7 @@ def run(tier, v, wd, replay=None):
         every = {"VERIF_RS_EVERY": "1"}
     else:
         cfgs = [("RuleScan_single.cfg", {}), ("RuleScan_c2.cfg", {}), ("RuleScan_r2.cfg", {}),
-                ("RuleScan_sim.cfg", dict(simulate={"num": 3000}, depth=14, workers=8, max_emit=200000))]
+                ("RuleScan_sim.cfg", dict(simulate={"num": 3000}, depth=14, workers=8, max_emit=12000))]
         every = {}
     vec = generate(tier, v, wd, cfgs)
     repo = vlib.scratch_repo(wd, "stub")
